@@ -167,6 +167,59 @@ impl CostModel {
         Ok(pos_cost)
     }
 
+    /// Calculates the total cost of one step of a search: traversing an edge and, when the
+    /// edge is entered from another edge (or, in a reverse search, followed by one), the access
+    /// between the two. This is the traversal cost plus the network cost of that access (for
+    /// example a turn surcharge); `access_cost` is the share of it that is due to the access.
+    ///
+    /// # Arguments
+    ///
+    /// * `edge` - edge traversed
+    /// * `access_edges` - the (previous, next) pair of edges of the access, if any
+    /// * `prev_state` - state of the search before the access and the traversal
+    /// * `next_state` - state of the search at the end of the traversal
+    ///
+    /// # Returns
+    ///
+    /// Either the total cost or an error.
+    pub fn total_cost(
+        &self,
+        edge: &Edge,
+        access_edges: Option<(&Edge, &Edge)>,
+        prev_state: &[StateVar],
+        next_state: &[StateVar],
+    ) -> Result<Cost, CostModelError> {
+        let vehicle_cost = cost_ops::calculate_vehicle_costs(
+            (prev_state, next_state),
+            &self.feature_indices,
+            &self.weights,
+            &self.vehicle_rates,
+            &self.cost_aggregation,
+        )?;
+        let network_cost = cost_ops::calculate_network_traversal_costs(
+            (prev_state, next_state),
+            edge,
+            &self.feature_indices,
+            &self.weights,
+            &self.network_rates,
+            &self.cost_aggregation,
+        )?;
+        let access_network_cost = match access_edges {
+            None => Cost::ZERO,
+            Some(edges) => cost_ops::calculate_network_access_costs(
+                (prev_state, next_state),
+                edges,
+                &self.feature_indices,
+                &self.weights,
+                &self.network_rates,
+                &self.cost_aggregation,
+            )?,
+        };
+        let total_cost = vehicle_cost + network_cost + access_network_cost;
+        let pos_cost = Cost::enforce_strictly_positive(total_cost);
+        Ok(pos_cost)
+    }
+
     /// Calculates a cost estimate for traversing between a source and destination
     /// vertex without actually doing the work of traversing the edges.
     /// This estimate is used in search algorithms such as a-star algorithm, where
